@@ -38,7 +38,7 @@ ASSUMPTIONS = [
 DEGENERATE = ["zero", "constant", "single_bin", "monotone_up", "monotone_down", "alpha_one", "two_dirs", "one_dir", "one_freq", "plain"]
 
 ALWAYS_FINITE = {"hs", "hs_notail", "hrms", "momf1", "momf3", "oned", "to_energy", "mss", "mss_depth", "uss", "uss_x", "uss_y_depth", "celerity", "wavelen", "momd1", "crsd", "dp"}
-NEED_ENERGY = {"tm01", "tm02", "goda", "dm", "dspr", "swe", "fdspr"}
+NEED_ENERGY = {"tm01", "tm02", "goda", "dm", "dspr", "swe", "fdspr", "hmax"}
 NEED_PEAK = {"tp", "tp_discrete", "fp", "dpm", "dpspr", "alpha"}
 NEED_TWO_DIRS = {"rotate", "rotate_bin", "interp_dir", "interp_both", "interp_nom0"}
 TRANSFORMS = {"smooth33", "smooth_f", "smooth_d5", "interp_freq", "interp_dir", "interp_both", "interp_nom0", "rotate", "rotate_bin", "split_f", "split_fd", "scale_by_hs",
